@@ -6,7 +6,7 @@ var propertyNotes = map[string]string{
 	"C05": "partial: the escaping path of logfmt (no control byte, quotes only escaped, invalid UTF-8 escaped, key before value) is proved up to one recorded finding (unescaped keys); the parse-back round trip is not decided by this check.",
 	"C06": "partial: the colour on/off discipline of the record buffer is proved up to one recorded finding (raw string values in colored mode); the layout is not decided by this check.",
 	"C07": "partial: the assembly steps (sources and their order, inheritance, comparator, stable sort call, last-of-run dedupe, groups) are proved; that the printed list is the sorted permutation with the last occurrence surviving relies on the assumed behaviour of slices.SortStableFunc and is not decided by this check.",
-	"C20": "partial: totality / in-bounds of the formatter is proved for all int64 durations; the parser's agreement with time.ParseDuration and the format/parse round trip are not decided by this check.",
+	"C20": "partial: totality / in-bounds of the formatter is proved for all int64 durations; the parser's digit scanners consume exactly the leading digits; the parser's agreement with time.ParseDuration on whole strings and the format/parse round trip are not decided by this check.",
 }
 
 var propertyAssumptions = map[string][]string{}
